@@ -137,12 +137,42 @@ def ob_producers(n, plen):
     return h
 
 
+def ob_shared_rule():
+    """two (or three) build statements use one rspable rule; rsp_threshold is symbolic, so some need the _RSP variant and some do not:
+    every rule name used by a build statement must be defined in the same manifest"""
+    def h():
+        nb.rsp_threshold = sym_int('rsp_threshold', 0, 200)
+        b = nb.NinjaBuild()
+        b.add_rule(nb.NinjaRule('R', ['cc'], ['$ARGS', '$in'], 'd', rspable=True))
+        b.add_rule(nb.NinjaRule('S', ['ld'], ['$in'], 'd', rspable=choose(2, 's_rspable') == 1))
+        n = 2 + choose(2, 'nstatements')
+        allout = sym_set()
+        for i in range(n):
+            rn = ['R', 'S'][choose(2, 'rule%d' % i)]
+            el = nb.NinjaBuildElement(allout, 'o%d' % i, rn, 'i%d' % i)
+            el.add_item('ARGS', ['x' * [1, 40, 120][choose(3, 'arglen%d' % i)]])
+            b.add_build(el)
+        o = Out()
+        b.write(o)
+        rules, builds = parse_manifest(o.text())
+        check(len(builds) == n, 'all statements written')
+        used = set()
+        for bd in builds:
+            check(isinstance(bd['rule'], str) and bd['rule'] in rules, 'every build statement uses a rule defined in the same manifest')
+            used.add(bd['rule'])
+        for r in rules:
+            check(r in used, 'no rule is written that no statement uses')
+        cover('both' if ('R' in used and 'R_RSP' in used) else 'one')
+    return h
+
+
 def obligations(tier):
     q = tier == 'quick'
     out = [Obligation('paths[%d]' % k, ob_statement(k, False), dict(path_len=k, lists='outputs, implicit outputs, inputs', alphabet=PA, rule='R|S|phony|undefined', rsp_threshold='symbolic'),
                       labels=('roundtrip', 'undefined-rule-rejected', 'rsp'), max_paths=3000000) for k in ((1, 2) if q else (1, 2, 3))]
     out.append(Obligation('deps', ob_statement(1, True), dict(deps='0-2 implicit + 0-2 order-only of 1 char, any insertion order', alphabet=PA, rule='R|S|phony|undefined'),
                           labels=('roundtrip', 'undefined-rule-rejected', 'rsp'), max_paths=3000000))
+    out.append(Obligation('shared-rule', ob_shared_rule(), dict(statements='2-3 on rules R (rspable) / S', arg_lengths='1 | 40 | 120', rsp_threshold='symbolic 0..200'), labels=('both', 'one'), max_paths=3000000))
     out.append(Obligation('pipe-in-path', ob_statement(1, False, alpha='|a'), dict(path_len=1, alphabet='|a'), labels=('roundtrip',),
                           classify=lambda label, inputs: 'unescaped | in a build-line path' if any(k == 'str' and '|' in v for k, n, v in inputs) else label))
     for n, pl in ((2, 1), (2, 2)) if q else ((2, 1), (2, 2), (3, 1), (3, 2)):
